@@ -62,7 +62,7 @@ OPTS = {"transforms": True}
 
 
 def plan(tier):
-    return 3600 if tier == "quick" else 100000
+    return 6000 if tier == "quick" else 100000
 
 
 def budget(tier):
